@@ -39,7 +39,7 @@ def aCopyTail (a : ASt) (d : Bytes) (wb : Nat) (run : Bool) : ASt × WObs :=
   if a.content.length == a.limit then
     let a := { a with dataErr := true }
     if a.reject then
-      let a := { a with intr := some (rejectStatus a.side) }
+      let a := { a with intr := limitIntr a.intr a.side }
       (a, ⟨a.intr, 0, false⟩)
     else
       let a := aProcessBody a
@@ -57,7 +57,7 @@ def aStep (a : ASt) (w : Wr) : ASt × WObs :=
       if len + d.length ≥ a.limit then
         let a := { a with dataErr := true }
         if a.reject then
-          let a := { a with intr := some (rejectStatus a.side) }
+          let a := { a with intr := limitIntr a.intr a.side }
           (a, ⟨a.intr, 0, false⟩)
         else
           let got := d.take (a.limit - len)
@@ -69,7 +69,7 @@ def aStep (a : ASt) (w : Wr) : ASt × WObs :=
       if len + d.length ≥ a.limit then
         let a := { a with dataErr := true }
         if a.reject then
-          let a := { a with intr := some (rejectStatus a.side) }
+          let a := { a with intr := limitIntr a.intr a.side }
           (a, ⟨a.intr, 0, false⟩)
         else aCopyTail a d (a.limit - len) true
       else aCopyTail a d d.length false
